@@ -96,6 +96,8 @@ func c07Run(c *mon.Ctx, r *mon.Rand) {
 	desc := map[string]interface{}{"sanitizer": withSan, "cached": cached, "shards": shards, "interval_us": interval.Microseconds(), "workers": nWorkers, "passers": nPassers,
 		"epochs": epochs, "ops_per_epoch": opsPerEpoch, "delay_strength": prof.Strength}
 	c.LogCase(fmt.Sprint(desc))
+	stopWatch := c.Watchdog(300*time.Second, "no-progress(deadlock?)", desc)
+	defer stopWatch()
 
 	var spell uint64
 	obtain := func(id *c07Ident) tally.Scope {
